@@ -138,6 +138,7 @@ impl AdjacencyMap {
         broadcast use lemma_mm_filter_count;
         proof {
             let dom = self.arcs@.dom();
+            assert(self.arcs@.len() == self.arcs.len());
             // `values()` lists the rows in the order of an (existentially given) duplicate-free key listing ks
             assert forall|ks: Seq<usize>| #![trigger ks.no_duplicates()] mm_tag(*self, v as int, ks) by {}
             assert forall|ks: Seq<usize>| #![trigger mm_tag(*self, v as int, ks)] ks.to_set() == dom implies
@@ -149,3 +150,699 @@ impl AdjacencyMap {
         }
     @*/
 }
+
+// ---- C02 in_neighbors: exactly the in-neighbours of v, ascending, no repeats ----
+
+/// strictly ascending ids
+spec fn mm_ascending_ids(s: Seq<usize>) -> bool {
+    forall|i: int, j: int| 0 <= i < j < s.len() ==> #[trigger] s[i] < #[trigger] s[j]
+}
+
+/// the `Some` values of outs, where outs[j] is either None or Some(keys[j]) for an ascending key listing: ascending, each one a
+/// selected key, every selected key among them
+proof fn lemma_mm_somes(keys: Seq<usize>, outs: Seq<Option<usize>>)
+    requires
+        outs.len() <= keys.len(),
+        mm_ascending_ids(keys),
+        forall|j: int| 0 <= j < outs.len() && (#[trigger] outs[j]) is Some ==> outs[j]->0 == keys[j],
+    ensures
+        mm_ascending_ids(vx_somes(outs)),
+        forall|i: int| #![trigger vx_somes(outs)[i]] 0 <= i < vx_somes(outs).len() ==> exists|j: int| 0 <= j < outs.len() && #[trigger] outs[j] == Some(vx_somes(outs)[i]),
+        forall|j: int| 0 <= j < outs.len() && (#[trigger] outs[j]) is Some ==> vx_somes(outs).contains(keys[j]),
+    decreases outs.len(),
+{
+    if outs.len() > 0 {
+        let n = outs.len() - 1;
+        let pre = outs.drop_last();
+        lemma_mm_somes(keys, pre);
+        let sp = vx_somes(pre);
+        let s = vx_somes(outs);
+        assert forall|i: int| #![trigger sp[i]] 0 <= i < sp.len() implies exists|j: int| 0 <= j < n && #[trigger] outs[j] == Some(sp[i]) by {
+            let j = choose|j: int| 0 <= j < pre.len() && #[trigger] pre[j] == Some(sp[i]);
+            assert(outs[j] == pre[j]);
+        }
+        if outs[n] is Some {
+            assert(s == sp.push(keys[n]));
+            assert forall|i: int, i2: int| 0 <= i < i2 < s.len() implies #[trigger] s[i] < #[trigger] s[i2] by {
+                if i2 == sp.len() {
+                    let j = choose|j: int| 0 <= j < n && #[trigger] outs[j] == Some(sp[i]);
+                    assert(keys[j] < keys[n]);
+                }
+            }
+            assert forall|i: int| #![trigger s[i]] 0 <= i < s.len() implies exists|j: int| 0 <= j < outs.len() && #[trigger] outs[j] == Some(s[i]) by {
+                if i == sp.len() { assert(outs[n] == Some(s[i])); }
+                else { let j = choose|j: int| 0 <= j < n && #[trigger] outs[j] == Some(sp[i]); }
+            }
+            assert forall|j: int| 0 <= j < outs.len() && (#[trigger] outs[j]) is Some implies s.contains(keys[j]) by {
+                if j == n { assert(s[sp.len() as int] == keys[n]); }
+                else {
+                    assert(pre[j] == outs[j]);
+                    assert(sp.contains(keys[j]));
+                    let i = choose|i: int| 0 <= i < sp.len() && sp[i] == keys[j];
+                    assert(s[i] == keys[j]);
+                }
+            }
+        } else {
+            assert(s == sp);
+            assert forall|j: int| 0 <= j < outs.len() && (#[trigger] outs[j]) is Some implies s.contains(keys[j]) by {
+                assert(pre[j] == outs[j]);
+            }
+        }
+    }
+}
+
+/// meaning of vstd's `increasing_seq` on usize keys: strictly ascending
+proof fn lemma_mm_increasing(ks: Seq<usize>, i: int, j: int)
+    requires vstd::std_specs::btree::increasing_seq(ks), 0 <= i < j < ks.len(),
+    ensures ks[i] < ks[j],
+{
+    broadcast use vstd::laws_cmp::group_laws_cmp;
+    assert(vstd::laws_cmp::obeys_cmp::<usize>());
+    vstd::std_specs::btree::axiom_increasing_seq_meaning(ks);
+    assert(<usize as vstd::std_specs::cmp::OrdSpec>::cmp_spec(&ks[i], &ks[j]) is Less);
+}
+
+/// trigger tag: names (g, v, items) for `lemma_mm_in_nb`
+spec fn mm_items_tag(g: AdjacencyMap, v: int, items: Seq<(&usize, &BTreeSet<usize>)>) -> bool { true }
+
+/// what `in_neighbors` promises about its item sequence s: in-neighbours of v, ascending
+spec fn mm_in_nb_items(g: AdjacencyMap, v: int, s: Seq<usize>) -> bool {
+    &&& forall|i: int| 0 <= i < s.len() ==> g.has(#[trigger] s[i] as int, v)
+    &&& forall|i: int, j: int| 0 <= i < j < s.len() ==> #[trigger] s[i] < #[trigger] s[j]
+}
+/// ... and all of them
+spec fn mm_in_nb_all(g: AdjacencyMap, v: int, s: Seq<usize>) -> bool {
+    forall|a: int| #[trigger] g.has(a, v) ==> s.contains(a as usize)
+}
+
+/// the model of `filter_map` (prelude/wm_more_std.rs) over the (key, row) items of the map, with a closure that answers
+/// `Some(key)` exactly for the rows containing v.  Broadcast because the adapter is the tail expression of `in_neighbors`.
+broadcast proof fn lemma_mm_in_nb(g: AdjacencyMap, v: int, items: Seq<(&usize, &BTreeSet<usize>)>, outs: Seq<Option<usize>>)
+    requires
+        0 <= v <= usize::MAX,
+        map_items_of(g.arcs@, items),
+        forall|i: int, j: int| 0 <= i < j < items.len() ==> *(#[trigger] items[i]).0 < *(#[trigger] items[j]).0,
+        outs.len() <= items.len(),
+        forall|j: int| 0 <= j < outs.len() ==> #[trigger] outs[j] == (if items[j].1@.contains(v as usize) { Some(*items[j].0) } else { None::<usize> }),
+    ensures
+        #![trigger vx_somes(outs), mm_items_tag(g, v, items)]
+        mm_in_nb_items(g, v, vx_somes(outs)),
+        outs.len() == items.len() ==> mm_in_nb_all(g, v, vx_somes(outs)),
+{
+    let keys = Seq::new(items.len(), |j: int| *items[j].0);
+    assert forall|i: int, j: int| 0 <= i < j < keys.len() implies #[trigger] keys[i] < #[trigger] keys[j] by {
+        assert(*items[i].0 < *items[j].0);
+    }
+    lemma_mm_somes(keys, outs);
+    let s = vx_somes(outs);
+    assert forall|i: int| 0 <= i < s.len() implies g.has(#[trigger] s[i] as int, v) by {
+        let j = choose|j: int| 0 <= j < outs.len() && #[trigger] outs[j] == Some(s[i]);
+        assert(g.arcs@.contains_key(*items[j].0) && g.arcs@[*items[j].0] == *items[j].1);
+    }
+    if outs.len() == items.len() {
+        assert forall|a: int| #[trigger] g.has(a, v) implies s.contains(a as usize) by {
+            let k = a as usize;
+            assert(g.arcs@.contains_key(k));
+            assert(items.contains((&k, &g.arcs@[k])));
+            let j = choose|j: int| 0 <= j < items.len() && items[j] == (&k, &g.arcs@[k]);
+            assert(outs[j] is Some);
+            assert(keys[j] == k);
+        }
+    }
+}
+
+impl AdjacencyMap {
+    /*@fn impl=AdjacencyMap trait=InNeighbors name=in_neighbors wrap=filter_map props=C02,C13 subst="Iterator<Item=usize>=>Iterator<Item=usize>+use<'_>"
+    ensures
+        r.obeys_prophetic_iter_laws(),
+        r.decrease() is Some,
+        forall|i: int| 0 <= i < r.remaining().len() ==> self.has(#[trigger] r.remaining()[i] as int, v as int),
+        forall|i: int, j: int| 0 <= i < j < r.remaining().len() ==> r.remaining()[i] < r.remaining()[j],
+        r.will_return_none() ==> forall|a: int| #[trigger] self.has(a, v as int) ==> r.remaining().contains(a as usize),
+    @closure 1 |p: (&usize, &BTreeSet<usize>)| -> (o: Option<usize>)
+    ensures
+        o == (if p.1@.contains(v) { Some(*p.0) } else { None::<usize> }),
+    @fn_start
+        broadcast use lemma_mm_in_nb;
+        proof {
+            assert forall|items: Seq<(&usize, &BTreeSet<usize>)>| #![trigger items.no_duplicates()] mm_items_tag(*self, v as int, items) by {}
+            // ascending: `BTreeMap::iter` promises `increasing_seq` of the key projection `f` of its items
+            assert forall|src: Seq<(&usize, &BTreeSet<usize>)>, f: spec_fn((&usize, &BTreeSet<usize>)) -> usize, i: int, j: int|
+                #[trigger] vstd::std_specs::btree::increasing_seq(src.map_values(f)) && 0 <= i < j < src.len()
+                implies f(#[trigger] src[i]) < f(#[trigger] src[j]) by {
+                lemma_mm_increasing(src.map_values(f), i, j);
+            }
+        }
+    @*/
+}
+
+// ---- C14: deterministic generators of AdjacencyMap that do not go through `empty` / `trivial` (see the report: those need
+// `From<rows>`, whose validation loop runs over the flat_map-based `arcs()`) ----
+// defining arc predicates, each written from the property text (identical to units/inc/matrix_gen.inc.rs)
+
+/// complete(n) has all n(n-1) arcs: every ordered pair of distinct vertices
+spec fn complete_arc(n: int, a: int, b: int) -> bool {
+    0 <= a < n && 0 <= b < n && a != b
+}
+/// path(n) has i -> i+1 for i < n-1
+spec fn path_arc(n: int, a: int, b: int) -> bool {
+    0 <= a < n - 1 && b == a + 1
+}
+/// circuit(n) has the arcs i -> (i+1) mod n (none for n = 1)
+spec fn circuit_arc(n: int, a: int, b: int) -> bool {
+    n > 1 && 0 <= a < n && 0 <= b < n && b == (a + 1) % n
+}
+/// cycle(n) has those arcs and their reverses
+spec fn cycle_arc(n: int, a: int, b: int) -> bool {
+    circuit_arc(n, a, b) || circuit_arc(n, b, a)
+}
+/// star(n) has 0 <-> i for 1 <= i < n
+spec fn star_arc(n: int, a: int, b: int) -> bool {
+    (a == 0 && 1 <= b < n) || (b == 0 && 1 <= a < n)
+}
+/// the cycle through 1..n-1: cycle(n-1) on the vertices 1, .., n-1
+spec fn rim_arc(n: int, a: int, b: int) -> bool {
+    1 <= a < n && 1 <= b < n && cycle_arc(n - 1, a - 1, b - 1)
+}
+/// wheel(n >= 4) is the union of star(n) and the cycle through 1..n-1
+spec fn wheel_arc(n: int, a: int, b: int) -> bool {
+    star_arc(n, a, b) || rim_arc(n, a, b)
+}
+/// biclique(m, n) has u <-> v exactly for u < m <= v < m+n
+spec fn biclique_arc(m: int, n: int, a: int, b: int) -> bool {
+    (0 <= a < m && m <= b < m + n) || (0 <= b < m && m <= a < m + n)
+}
+
+// proof helpers: `% n` free forms of the circuit / rim predicates (as in matrix_gen)
+spec fn circuit_lin(n: int, a: int, b: int) -> bool {
+    n > 1 && 0 <= a < n && b == (if a == n - 1 { 0 } else { a + 1 })
+}
+proof fn lemma_circuit_lin(n: int)
+    ensures forall|a: int, b: int| #[trigger] circuit_arc(n, a, b) == circuit_lin(n, a, b),
+{
+    assert forall|a: int, b: int| #[trigger] circuit_arc(n, a, b) == circuit_lin(n, a, b) by {
+        if n > 1 && 0 <= a < n {
+            if a == n - 1 {
+                vstd::arithmetic::div_mod::lemma_mod_self_0(n);
+            } else {
+                vstd::arithmetic::div_mod::lemma_small_mod((a + 1) as nat, n as nat);
+            }
+        }
+    }
+}
+/// `lo <= a, b < n` adjacent (|a - b| == 1) with smaller endpoint below `u`
+spec fn adj_below(n: int, lo: int, u: int, a: int, b: int) -> bool {
+    lo <= a < n && lo <= b < n && ((b == a + 1 && a < u) || (a == b + 1 && b < u))
+}
+/// the arc pair closing a cycle on lo..n-1
+spec fn closing(n: int, lo: int, a: int, b: int) -> bool {
+    (a == n - 1 && b == lo) || (a == lo && b == n - 1)
+}
+spec fn rim_lin_ok(n: int) -> bool {
+    forall|a: int, b: int| #[trigger] rim_arc(n, a, b) == (adj_below(n, 1, n - 1, a, b) || closing(n, 1, a, b))
+}
+proof fn lemma_rim_lin(n: int)
+    requires n >= 4,
+    ensures rim_lin_ok(n),
+{
+    lemma_circuit_lin(n - 1);
+    assert forall|a: int, b: int| #[trigger] rim_arc(n, a, b) == (adj_below(n, 1, n - 1, a, b) || closing(n, 1, a, b)) by {
+        assert(circuit_arc(n - 1, a - 1, b - 1) == circuit_lin(n - 1, a - 1, b - 1));
+        assert(circuit_arc(n - 1, b - 1, a - 1) == circuit_lin(n - 1, b - 1, a - 1));
+    }
+}
+
+/// items lists, for k = 0..n, the pair (k, row k), row k being the heads b with arc(k, b)
+spec fn mm_rows_from(items: Seq<(usize, BTreeSet<usize>)>, n: int, arc: spec_fn(int, int) -> bool) -> bool {
+    &&& items.len() == n
+    &&& forall|k: int| 0 <= k < n ==> (#[trigger] items[k]).0 == k
+    &&& forall|k: int, x: usize| 0 <= k < n ==> (#[trigger] items[k].1@.contains(x)) == arc(k, x as int)
+}
+
+/// what a generator promises: V = 0..n, A = arc, a valid digraph
+spec fn mm_generated(g: AdjacencyMap, n: int, arc: spec_fn(int, int) -> bool) -> bool {
+    &&& g.wf()
+    &&& g.ord() == n
+    &&& forall|x: int| #[trigger] g.verts().contains(x) == (0 <= x < n)
+    &&& forall|a: int, b: int| #![trigger g.has(a, b)] g.has(a, b) == arc(a, b)
+}
+
+/// a map with the keys 0..n whose row k holds the heads b with arc(k, b) is the digraph (0..n, arc), provided arc joins
+/// distinct vertices of 0..n
+proof fn lemma_mm_map(g: AdjacencyMap, n: int, arc: spec_fn(int, int) -> bool)
+    requires
+        0 < n <= usize::MAX,
+        forall|k: usize| #[trigger] g.arcs@.contains_key(k) == (k < n),
+        forall|k: usize, x: usize| k < n ==> (#[trigger] g.arcs@[k]@.contains(x)) == arc(k as int, x as int),
+        forall|a: int, b: int| #[trigger] arc(a, b) ==> 0 <= a < n && 0 <= b < n && a != b,
+    ensures
+        mm_generated(g, n, arc),
+{
+    broadcast use lemma_map_verts_contains;
+    let m = g.arcs;
+    assert forall|x: int| #[trigger] g.verts().contains(x) == (0 <= x < n) by {}
+    assert(g.verts() =~= Set::<int>::range(0, n));
+    range_set_properties::<int>(0, n);
+    let f = |k: usize| k as int;
+    assert(m@.dom().injective_on(f)) by {
+        assert forall|x1: usize, x2: usize| m@.dom().contains(x1) && m@.dom().contains(x2) && f(x1) == f(x2) implies x1 == x2 by {}
+    }
+    lemma_map_size(m@.dom(), g.verts(), f);
+    assert forall|a: int, b: int| #![trigger g.has(a, b)] g.has(a, b) == arc(a, b) by {
+        if 0 <= a < n && 0 <= b <= usize::MAX {
+            assert(m@[a as usize]@.contains(b as usize) == arc(a as usize as int, b as usize as int));
+        }
+    }
+    assert forall|u: usize, x: usize| m@.contains_key(u) && #[trigger] m@[u]@.contains(x) implies m@.contains_key(x) && x != u by {
+        assert(g.has(u as int, x as int));
+    }
+}
+
+/// collecting such a listing into a BTreeMap gives the digraph (0..n, arc), provided arc joins distinct vertices of 0..n
+proof fn lemma_mm_collected(items: Seq<(usize, BTreeSet<usize>)>, m: BTreeMap<usize, BTreeSet<usize>>, n: int, arc: spec_fn(int, int) -> bool)
+    requires
+        <BTreeMap<usize, BTreeSet<usize>> as vstd::std_specs::iter::FromIteratorSpec<(usize, BTreeSet<usize>)>>::from_iter_ensures(items, m),
+        mm_rows_from(items, n, arc),
+        0 < n <= usize::MAX,
+        forall|a: int, b: int| #[trigger] arc(a, b) ==> 0 <= a < n && 0 <= b < n && a != b,
+    ensures
+        mm_generated(AdjacencyMap { arcs: m }, n, arc),
+{
+    broadcast use axiom_btree_map_from_iter;
+    let g = AdjacencyMap { arcs: m };
+    assert forall|i: int, j: int| 0 <= i < j < items.len() implies items[i].0 != items[j].0 by {}
+    assert forall|k: usize| #[trigger] m@.contains_key(k) == (k < n) by {
+        if k < n { assert(items[k as int].0 == k); }
+    }
+    assert forall|k: usize, x: usize| k < n implies (#[trigger] m@[k]@.contains(x)) == arc(k as int, x as int) by {
+        assert(m@[items[k as int].0] == items[k as int].1);
+        assert(items[k as int].1@.contains(x) == arc(k as int, x as int));
+    }
+    lemma_mm_map(g, n, arc);
+}
+
+/// the items of a row listing: vertex k with the heads given by `row`
+spec fn mm_item_is(it: (usize, BTreeSet<usize>), k: int, row: spec_fn(int) -> bool) -> bool {
+    it.0 == k && forall|x: usize| #[trigger] it.1@.contains(x) == row(x as int)
+}
+
+/// the set collected from `lo..hi`
+proof fn lemma_mm_range_set(lo: usize, hi: usize)
+    ensures forall|x: usize| #[trigger] (core::ops::Range { start: lo, end: hi }).remaining().to_set().contains(x) == (lo <= x < hi),
+{
+    let rem = (core::ops::Range { start: lo, end: hi }).remaining();
+    assert forall|x: usize| #[trigger] rem.to_set().contains(x) == (lo <= x < hi) by {
+        if lo <= x < hi { assert(rem[x - lo] == x); }
+    }
+}
+
+/// the row listing of `wheel`: hub, first rim vertex, the middle rim vertices, last rim vertex
+proof fn lemma_mm_wheel_items(n: int, i0: (usize, BTreeSet<usize>), i1: (usize, BTreeSet<usize>), rm: Seq<(usize, BTreeSet<usize>)>, i3: (usize, BTreeSet<usize>), arc: spec_fn(int, int) -> bool)
+    requires
+        n >= 4,
+        forall|a: int, b: int| #[trigger] arc(a, b) == wheel_arc(n, a, b),
+        mm_item_is(i0, 0, |x: int| 1 <= x < n),
+        mm_item_is(i1, 1, |x: int| x == 0 || x == n - 1 || x == 2),
+        rm.len() == n - 3,
+        forall|k: int| 0 <= k < rm.len() ==> mm_item_is(#[trigger] rm[k], k + 2, |x: int| x == 0 || x == k + 1 || x == k + 3),
+        mm_item_is(i3, n - 1, |x: int| x == 0 || x == n - 2 || x == 1),
+    ensures
+        mm_rows_from(((seq![i0] + seq![i1]) + rm) + seq![i3], n, arc),
+{
+    let items = ((seq![i0] + seq![i1]) + rm) + seq![i3];
+    lemma_rim_lin(n);
+    assert forall|k: int| 0 <= k < n implies (#[trigger] items[k]).0 == k by {
+        if 2 <= k < n - 1 { assert(items[k] == rm[k - 2]); }
+    }
+    assert forall|k: int, x: usize| 0 <= k < n implies (#[trigger] items[k].1@.contains(x)) == arc(k, x as int) by {
+        assert(rim_arc(n, k, x as int) == (adj_below(n, 1, n - 1, k, x as int) || closing(n, 1, k, x as int)));
+        if 2 <= k < n - 1 { assert(items[k] == rm[k - 2]); assert(mm_item_is(rm[k - 2], k, |y: int| y == 0 || y == (k - 2) + 1 || y == (k - 2) + 3)); }
+    }
+}
+
+impl AdjacencyMap {
+    /*@fn impl=AdjacencyMap trait=Wheel name=wheel wrap=chain,fn:once props=C14,C13
+    ensures
+        order >= 4,
+        r.wf(),
+        r.ord() == order,
+        forall|x: int| #[trigger] r.verts().contains(x) == (0 <= x < order),
+        forall|a: int, b: int| #![trigger r.has(a, b)] r.has(a, b) == wheel_arc(order as int, a, b),
+    @closure 1 |u: usize| -> (kv: (usize, BTreeSet<usize>))
+    requires
+        2 <= u < last,
+    ensures
+        mm_item_is(kv, u as int, |x: int| x == 0 || x == u - 1 || x == u + 1),
+    @fn_end
+        broadcast use vstd::std_specs::iter::group_iter_axioms;
+        broadcast use vstd::laws_cmp::group_laws_cmp;
+        broadcast use axiom_btree_set_from_iter;
+        proof {
+            let n = order as int;
+            let arc = |a: int, b: int| wheel_arc(n, a, b);
+            lemma_rim_lin(n);
+            lemma_mm_range_set(1, order);
+            assert forall|a: int, b: int| #[trigger] arc(a, b) implies 0 <= a < n && 0 <= b < n && a != b by {
+                assert(rim_arc(n, a, b) == (adj_below(n, 1, n - 1, a, b) || closing(n, 1, a, b)));
+            }
+            // the chain is the tail expression: state the meaning of its item sequence for every candidate of that shape
+            assert forall|i0: (usize, BTreeSet<usize>), i1: (usize, BTreeSet<usize>), rm: Seq<(usize, BTreeSet<usize>)>, i3: (usize, BTreeSet<usize>)|
+                mm_item_is(i0, 0, |x: int| 1 <= x < n)
+                && mm_item_is(i1, 1, |x: int| x == 0 || x == n - 1 || x == 2)
+                && rm.len() == n - 3
+                && (forall|k: int| 0 <= k < rm.len() ==> mm_item_is(#[trigger] rm[k], k + 2, |x: int| x == 0 || x == k + 1 || x == k + 3))
+                && mm_item_is(i3, n - 1, |x: int| x == 0 || x == n - 2 || x == 1)
+                implies mm_rows_from(#[trigger] (((seq![i0] + seq![i1]) + rm) + seq![i3]), n, arc) by {
+                lemma_mm_wheel_items(n, i0, i1, rm, i3, arc);
+            }
+            assert forall|items: Seq<(usize, BTreeSet<usize>)>, m: BTreeMap<usize, BTreeSet<usize>>|
+                #[trigger] <BTreeMap<usize, BTreeSet<usize>> as vstd::std_specs::iter::FromIteratorSpec<(usize, BTreeSet<usize>)>>::from_iter_ensures(items, m)
+                && mm_rows_from(items, n, arc) implies mm_generated(AdjacencyMap { arcs: m }, n, arc) by {
+                lemma_mm_collected(items, m, n, arc);
+            }
+        }
+    @*/
+}
+
+impl AdjacencyMap {
+    /*@fn impl=AdjacencyMap trait=Biclique name=biclique wrap=fn:repeat_n,chain,enumerate props=C14,C13
+    ensures
+        m > 0,
+        n > 0,
+        m + n <= usize::MAX,
+        r.wf(),
+        r.ord() == m + n,
+        forall|x: int| #[trigger] r.verts().contains(x) == (0 <= x < m + n),
+        forall|a: int, b: int| #![trigger r.has(a, b)] r.has(a, b) == biclique_arc(m as int, n as int, a, b),
+    @fn_end
+        broadcast use vstd::std_specs::iter::group_iter_axioms;
+        broadcast use vstd::laws_cmp::group_laws_cmp;
+        broadcast use axiom_btree_set_from_iter;
+        proof {
+            let arc = |a: int, b: int| biclique_arc(m as int, n as int, a, b);
+            lemma_mm_range_set(0, m);
+            lemma_mm_range_set(m, order);
+            assert forall|items: Seq<(usize, BTreeSet<usize>)>, mp: BTreeMap<usize, BTreeSet<usize>>|
+                #[trigger] <BTreeMap<usize, BTreeSet<usize>> as vstd::std_specs::iter::FromIteratorSpec<(usize, BTreeSet<usize>)>>::from_iter_ensures(items, mp)
+                && mm_rows_from(items, order as int, arc) implies mm_generated(AdjacencyMap { arcs: mp }, order as int, arc) by {
+                lemma_mm_collected(items, mp, order as int, arc);
+            }
+        }
+    @*/
+}
+
+// ---- C14, orders >= 2 only: circuit / cycle / path / star / complete ----
+// Each of these starts with `if order == 1 { return Self::trivial(); }`, and `trivial()` = `empty(1)` = `From<rows>`, which is out
+// of reach (its validation loop runs over the flat_map-based `arcs()`).  The stand-in below has the precondition `false`, so
+// NOTHING is assumed about the real `trivial`: the generators are verified under `order != 1` (order 0 panics), where that
+// branch is unreachable.  The case order == 1 is NOT covered.
+impl AdjacencyMap {
+    fn trivial() -> (r: Self)
+        requires false,
+    {
+        vpanic()
+    }
+
+    /*@fn impl=AdjacencyMap trait=Circuit name=circuit props=C14,C13
+    requires
+        order != 1,
+    ensures
+        order >= 2,
+        r.wf(),
+        r.ord() == order,
+        forall|x: int| #[trigger] r.verts().contains(x) == (0 <= x < order),
+        forall|a: int, b: int| #![trigger r.has(a, b)] r.has(a, b) == circuit_arc(order as int, a, b),
+    @closure 1 |u: usize| -> (kv: (usize, BTreeSet<usize>))
+    requires
+        u < order,
+        order > 1,
+    ensures
+        mm_item_is(kv, u as int, |x: int| x == (u + 1) % (order as int)),
+    @fn_end
+        broadcast use vstd::std_specs::iter::group_iter_axioms;
+        broadcast use vstd::laws_cmp::group_laws_cmp;
+        proof {
+            let n = order as int;
+            let arc = |a: int, b: int| circuit_arc(n, a, b);
+            lemma_circuit_lin(n);
+            assert forall|a: int, b: int| #[trigger] arc(a, b) implies 0 <= a < n && 0 <= b < n && a != b by {
+                assert(circuit_arc(n, a, b) == circuit_lin(n, a, b));
+            }
+            assert forall|items: Seq<(usize, BTreeSet<usize>)>, m: BTreeMap<usize, BTreeSet<usize>>|
+                #[trigger] <BTreeMap<usize, BTreeSet<usize>> as vstd::std_specs::iter::FromIteratorSpec<(usize, BTreeSet<usize>)>>::from_iter_ensures(items, m)
+                && mm_rows_from(items, n, arc) implies mm_generated(AdjacencyMap { arcs: m }, n, arc) by {
+                lemma_mm_collected(items, m, n, arc);
+            }
+        }
+    @*/
+}
+
+impl AdjacencyMap {
+    // `u + order - 1` needs order <= usize::MAX / 2 + 1 (beyond it the sum overflows: debug panic / release wrap; such an order
+    // cannot be allocated, but Verus does not model the allocation bound), so it is a precondition here (as for AdjacencyList).
+    /*@fn impl=AdjacencyMap trait=Cycle name=cycle props=C14,C13
+    requires
+        order != 1,
+        order <= 0x7fff_ffff_ffff_ffff,
+    ensures
+        order >= 2,
+        r.wf(),
+        r.ord() == order,
+        forall|x: int| #[trigger] r.verts().contains(x) == (0 <= x < order),
+        forall|a: int, b: int| #![trigger r.has(a, b)] r.has(a, b) == cycle_arc(order as int, a, b),
+    @closure 1 |u: usize| -> (kv: (usize, BTreeSet<usize>))
+    requires
+        u < order,
+        order > 1,
+        order <= 0x7fff_ffff_ffff_ffff,
+    ensures
+        mm_item_is(kv, u as int, |x: int| x == (u + order - 1) % (order as int) || x == (u + 1) % (order as int)),
+    @fn_end
+        broadcast use vstd::std_specs::iter::group_iter_axioms;
+        broadcast use vstd::laws_cmp::group_laws_cmp;
+        proof {
+            let n = order as int;
+            let arc = |a: int, b: int| cycle_arc(n, a, b);
+            lemma_circuit_lin(n);
+            assert forall|a: int, b: int| #[trigger] arc(a, b) implies 0 <= a < n && 0 <= b < n && a != b by {
+                assert(circuit_arc(n, a, b) == circuit_lin(n, a, b));
+                assert(circuit_arc(n, b, a) == circuit_lin(n, b, a));
+            }
+            // (k + n - 1) % n is the predecessor of k on the n-circuit
+            assert forall|k: int, x: int| 0 <= k < n implies (#[trigger] circuit_arc(n, x, k)) == (0 <= x && x == (k + n - 1) % n) by {
+                assert(circuit_arc(n, x, k) == circuit_lin(n, x, k));
+                if k == 0 { vstd::arithmetic::div_mod::lemma_small_mod((n - 1) as nat, n as nat); }
+                else { vstd::arithmetic::div_mod::lemma_mod_add_multiples_vanish(k - 1, n); vstd::arithmetic::div_mod::lemma_small_mod((k - 1) as nat, n as nat); }
+            }
+            assert forall|items: Seq<(usize, BTreeSet<usize>)>, m: BTreeMap<usize, BTreeSet<usize>>|
+                #[trigger] <BTreeMap<usize, BTreeSet<usize>> as vstd::std_specs::iter::FromIteratorSpec<(usize, BTreeSet<usize>)>>::from_iter_ensures(items, m)
+                && mm_rows_from(items, n, arc) implies mm_generated(AdjacencyMap { arcs: m }, n, arc) by {
+                lemma_mm_collected(items, m, n, arc);
+            }
+        }
+    @*/
+
+    /*@fn impl=AdjacencyMap trait=Path name=path wrap=chain,fn:once props=C14,C13
+    requires
+        order != 1,
+    ensures
+        order >= 2,
+        r.wf(),
+        r.ord() == order,
+        forall|x: int| #[trigger] r.verts().contains(x) == (0 <= x < order),
+        forall|a: int, b: int| #![trigger r.has(a, b)] r.has(a, b) == path_arc(order as int, a, b),
+    @closure 1 |u: usize| -> (kv: (usize, BTreeSet<usize>))
+    requires
+        u < last,
+    ensures
+        mm_item_is(kv, u as int, |x: int| x == u + 1),
+    @fn_end
+        broadcast use vstd::std_specs::iter::group_iter_axioms;
+        broadcast use vstd::laws_cmp::group_laws_cmp;
+        proof {
+            let n = order as int;
+            let arc = |a: int, b: int| path_arc(n, a, b);
+            assert forall|items: Seq<(usize, BTreeSet<usize>)>, m: BTreeMap<usize, BTreeSet<usize>>|
+                #[trigger] <BTreeMap<usize, BTreeSet<usize>> as vstd::std_specs::iter::FromIteratorSpec<(usize, BTreeSet<usize>)>>::from_iter_ensures(items, m)
+                && mm_rows_from(items, n, arc) implies mm_generated(AdjacencyMap { arcs: m }, n, arc) by {
+                lemma_mm_collected(items, m, n, arc);
+            }
+        }
+    @*/
+
+    /*@fn impl=AdjacencyMap trait=Star name=star wrap=chain,fn:once props=C14,C13
+    requires
+        order != 1,
+    ensures
+        order >= 2,
+        r.wf(),
+        r.ord() == order,
+        forall|x: int| #[trigger] r.verts().contains(x) == (0 <= x < order),
+        forall|a: int, b: int| #![trigger r.has(a, b)] r.has(a, b) == star_arc(order as int, a, b),
+    @closure 1 |u: usize| -> (kv: (usize, BTreeSet<usize>))
+    ensures
+        mm_item_is(kv, u as int, |x: int| x == 0),
+    @fn_end
+        broadcast use vstd::std_specs::iter::group_iter_axioms;
+        broadcast use vstd::laws_cmp::group_laws_cmp;
+        broadcast use axiom_btree_set_from_iter;
+        proof {
+            let n = order as int;
+            let arc = |a: int, b: int| star_arc(n, a, b);
+            lemma_mm_range_set(1, order);
+            assert forall|items: Seq<(usize, BTreeSet<usize>)>, m: BTreeMap<usize, BTreeSet<usize>>|
+                #[trigger] <BTreeMap<usize, BTreeSet<usize>> as vstd::std_specs::iter::FromIteratorSpec<(usize, BTreeSet<usize>)>>::from_iter_ensures(items, m)
+                && mm_rows_from(items, n, arc) implies mm_generated(AdjacencyMap { arcs: m }, n, arc) by {
+                lemma_mm_collected(items, m, n, arc);
+            }
+        }
+    @*/
+}
+
+/// the rows of the vertices below `upto` of complete(n) are in place: row k = 0..n without k
+/// (a named predicate: `let mut arcs = BTreeMap::new()` gets its type only from the struct literal at the end)
+spec fn mm_complete_rows(m: BTreeMap<usize, BTreeSet<usize>>, n: int, upto: int) -> bool {
+    &&& forall|k: usize| #[trigger] m@.contains_key(k) == (k < upto)
+    &&& forall|k: usize, x: usize| k < upto ==> (#[trigger] m@[k]@.contains(x)) == (x < n && x != k)
+}
+
+impl AdjacencyMap {
+    /*@fn impl=AdjacencyMap trait=Complete name=complete props=C14,C13
+    requires
+        order != 1,
+    ensures
+        order >= 2,
+        r.wf(),
+        r.ord() == order,
+        forall|x: int| #[trigger] r.verts().contains(x) == (0 <= x < order),
+        forall|a: int, b: int| #![trigger r.has(a, b)] r.has(a, b) == complete_arc(order as int, a, b),
+    @before `let vertices`
+        broadcast use vstd::std_specs::iter::group_iter_axioms;
+        broadcast use vstd::laws_cmp::group_laws_cmp;
+        broadcast use axiom_btree_set_from_iter;
+        proof { lemma_mm_range_set(0, order); }
+    @loop 1
+    invariant
+        order >= 2,
+        forall|x: usize| #[trigger] vertices@.contains(x) == (x < order),
+        it1.seq().len() == order,
+        forall|i: int| 0 <= i < order ==> #[trigger] it1.seq()[i] == i,
+        mm_complete_rows(arcs, order as int, it1.index@ as int),
+    @fn_end
+        proof {
+            let n = order as int;
+            let arc = |a: int, b: int| complete_arc(n, a, b);
+            lemma_mm_map(AdjacencyMap { arcs }, n, arc);
+        }
+    @*/
+}
+
+// ---- C01 vertices (ascending, each once), C02 semidegree_sequence (blanket impl of src/op/semidegree_sequence.rs at
+// D = AdjacencyMap), C12 is_regular ----
+
+/// ks lists the vertex set `dom` in ascending order (hence each vertex once)
+spec fn mm_is_key_seq(dom: Set<usize>, ks: Seq<usize>) -> bool {
+    &&& ks.to_set() == dom
+    &&& ks.no_duplicates()
+    &&& forall|i: int, j: int| 0 <= i < j < ks.len() ==> #[trigger] ks[i] < #[trigger] ks[j]
+}
+
+impl AdjacencyMap {
+    /// outdegree defined from (V, A): the number of b with (u, b) in A (`row(u)` is exactly that set: `has`)
+    spec fn outdeg(&self, u: int) -> nat { self.row(u).len() }
+}
+
+/// every vertex has indegree c and outdegree c
+spec fn mm_all_deg(g: AdjacencyMap, c: int) -> bool {
+    forall|a: int| g.verts().contains(a) ==> #[trigger] g.indeg(a) == c && g.outdeg(a) == c
+}
+/// C12: all indegrees and outdegrees equal one constant
+spec fn mm_regular(g: AdjacencyMap) -> bool { exists|c: int| mm_all_deg(g, c) }
+
+/// s lists the semidegrees of the first s.len() vertices of ks
+spec fn mm_semideg_items(g: AdjacencyMap, ks: Seq<usize>, s: Seq<(usize, usize)>) -> bool {
+    &&& s.len() <= ks.len()
+    &&& forall|i: int| 0 <= i < s.len() ==> (#[trigger] s[i]).0 == g.indeg(ks[i] as int) && s[i].1 == g.outdeg(ks[i] as int)
+}
+
+impl AdjacencyMap {
+    /*@fn impl=AdjacencyMap trait=Vertices name=vertices wrap=copied props=C01,C13 subst="Iterator<Item=usize>=>Iterator<Item=usize>+use<'_>"
+    ensures
+        r.obeys_prophetic_iter_laws(),
+        r.decrease() is Some,
+        mm_is_key_seq(self.arcs@.dom(), r.remaining()),
+        r.remaining().len() == self.ord(),
+    @fn_start
+        proof {
+            assert forall|rem: Seq<&usize>| #[trigger] vstd::std_specs::btree::increasing_seq(rem) implies mm_ascending(rem) by { lemma_mm_ref_increasing(rem); }
+        }
+    @*/
+
+    /*@fn impl=D trait=SemidegreeSequence name=semidegree_sequence file=src/op/semidegree_sequence.rs props=C02,C13
+    ensures
+        r.obeys_prophetic_iter_laws(),
+        r.decrease() is Some,
+        exists|ks: Seq<usize>| #[trigger] mm_is_key_seq(self.arcs@.dom(), ks) && ks.len() == self.ord() && mm_semideg_items(*self, ks, r.remaining())
+            && (r.will_return_none() ==> r.remaining().len() == ks.len()),
+    @closure 1 |u: usize| -> (d: (usize, usize))
+    requires
+        self.arcs@.contains_key(u),
+    ensures
+        d.0 == self.indeg(u as int),
+        d.1 == self.outdeg(u as int),
+    @fn_start
+        broadcast use vstd::std_specs::iter::group_iter_axioms;
+        broadcast use lemma_map_verts_contains;
+        proof {
+            assert forall|ks: Seq<usize>, i: int| #![trigger mm_is_key_seq(self.arcs@.dom(), ks), ks[i]] mm_is_key_seq(self.arcs@.dom(), ks) && 0 <= i < ks.len()
+                implies self.arcs@.contains_key(ks[i]) by { assert(ks.to_set().contains(ks[i])); }
+        }
+    @*/
+
+    /*@fn impl=AdjacencyMap trait=IsRegular name=is_regular wrap=all props=C12,C13
+    ensures
+        self.ord() > 0,
+        r == mm_regular(*self),
+    @closure 1 |p: (usize, usize)| -> (b: bool)
+    ensures
+        b == (p.0 == u && p.1 == v),
+    @after `let mut semidegrees`
+        let ghost s0 = semidegrees.remaining();
+        let ghost ks = choose|ks: Seq<usize>| #[trigger] mm_is_key_seq(self.arcs@.dom(), ks) && ks.len() == self.ord() && mm_semideg_items(*self, ks, s0)
+            && (semidegrees.will_return_none() ==> s0.len() == ks.len());
+    @fn_end
+        broadcast use lemma_map_verts_contains;
+        proof {
+            let rem1 = semidegrees.remaining();
+            assert(rem1 == s0.drop_first());
+            assert(u == self.indeg(ks[0] as int) && v == self.outdeg(ks[0] as int)) by { assert(s0[0] == (u, v)); }
+            assert forall|i: int| 0 <= i < rem1.len() implies (#[trigger] rem1[i]).0 == self.indeg(ks[i + 1] as int) && rem1[i].1 == self.outdeg(ks[i + 1] as int) by {
+                assert(rem1[i] == s0[i + 1]);
+            }
+            assert forall|i: int| 0 <= i < ks.len() implies self.verts().contains(#[trigger] ks[i] as int) by { assert(ks.to_set().contains(ks[i])); }
+            // regular ==> the first pair is (c, c) and every later item equals it
+            if mm_regular(*self) {
+                let c = choose|c: int| mm_all_deg(*self, c);
+                assert(self.indeg(ks[0] as int) == c && self.outdeg(ks[0] as int) == c);
+                assert forall|i: int| 0 <= i < rem1.len() implies (#[trigger] rem1[i]).0 == u && rem1[i].1 == v by {
+                    assert(self.indeg(ks[i + 1] as int) == c && self.outdeg(ks[i + 1] as int) == c);
+                }
+            }
+            // the sequence was run to its end and every item equals (u, u) ==> regular with constant u
+            // (`will_return_none()` is prophetic: no `if` on it, hence the one-point quantifier)
+            assert forall|z: int| (#[trigger] mm_see(z)) && u == v && semidegrees.will_return_none()
+                && (forall|i: int| 0 <= i < rem1.len() ==> (#[trigger] rem1[i]).0 == u && rem1[i].1 == v) implies mm_all_deg(*self, u as int) by {
+                assert(s0.len() == ks.len());
+                assert forall|a: int| self.verts().contains(a) implies #[trigger] self.indeg(a) == u as int && self.outdeg(a) == u as int by {
+                    assert(ks.to_set().contains(a as usize));
+                    let i = choose|i: int| 0 <= i < ks.len() && ks[i] == a as usize;
+                    if i > 0 { assert(rem1[i - 1].0 == u && rem1[i - 1].1 == v); }
+                }
+            }
+            assert(mm_see(0int));
+        }
+    @*/
+}
+
+/// always true: used to make a term appear in a quantifier instantiation
+spec fn mm_see<A>(a: A) -> bool { true }
